@@ -15,6 +15,10 @@ Proved here, about the model `EncTotal.lean` (tied to the code by the differenti
   R9G9B9E5 (`rgb9995f::from_f32`) at the bit level, on binary32 bit patterns with a software
   binary32 (no assumption on the rounding): for EVERY triple of patterns no `debug_assert!`
   fails, the mantissas are at most 511, the exponent at most 31, the word is the 9+9+9+5 packing;
+* `quantiser_range_unorm_bits`, `packed_formats_fit_bits` — the binary32 quantisers
+  `n1, n2, n4, n5, n6, n10::from_f32`, `s8::from_uf32` and the packed formats built from them, again
+  on bit patterns with the software binary32: the rounding hypotheses of `quantiser_range_unorm`,
+  `quantiser_range_snorm` (8 bit) and `packed_formats_fit` are discharged for binary32;
 * `refine_loops_bounded` — the only data-dependent loop of the block encoders runs at most
   `max_iter` times, and `max_iter ≤ 10` at every quality;
 * `empty_image_ok` — empty images give `Ok` and not a single byte, in every family, even with
@@ -28,6 +32,7 @@ property's "never panics" clause.
 import DdsModel.Proofs.EncTotal
 import DdsModel.Proofs.EncQuant
 import DdsModel.Proofs.SharedExp
+import DdsModel.Proofs.QuantBits
 namespace Dds.C15
 open Dds Dds.EncTotal
 
@@ -349,6 +354,52 @@ theorem quantiser_range_shared_exp_any_rounding (R : Rounding) (exp : Nat) (c : 
   rw [e]
   grind
 
+/-- **The binary32 UNORM / SNORM8 quantisers, every bit pattern, no rounding hypothesis.**
+`n1::from_f32` (`x >= 0.5`), `n2, n4, n5, n6, n10::from_f32` (`(x.min(1.0) * MAX + 0.5) as u8|u16`
+with the literals 3.0, 15.0, 31.0, 63.0, 1023.0) and `s8::from_uf32` (254.0, then `from_norm`) on
+binary32 bit patterns, every operator one correctly rounded operation of `ConvF32.lean`: for
+EVERY pattern `x` (NaN of any payload and sign, ±∞, both zeros, negative, subnormal, huge) the
+result is at most `MAX`; in `s8::from_norm` the `debug_assert!(x <= 254)` holds and `x + 1` does
+not overflow `u8`.  This is `quantiser_range_unorm` / `quantiser_range_snorm` (8 bit) with the
+hypotheses `R.fixes MAX`, `R.fixes (MAX + ½)` discharged for binary32.  (`s16::from_uf32`
+computes in `f64`: it stays with `quantiser_range_snorm`.) -/
+theorem quantiser_range_unorm_bits (x : Nat) (hx : x < 2 ^ 32) :
+    QuantBits.n1 x ≤ 1 ∧ QuantBits.n2 x ≤ 3 ∧ QuantBits.n4 x ≤ 15 ∧ QuantBits.n5 x ≤ 31 ∧
+    QuantBits.n6 x ≤ 63 ∧ QuantBits.n10 x ≤ 1023 ∧ ∃ v, QuantBits.s8 x = some v ∧ v < 2 ^ 8 :=
+  ⟨QuantBits.n1_le x, QuantBits.n2_le x hx, QuantBits.n4_le x hx, QuantBits.n5_le x hx,
+   QuantBits.n6_le x hx, QuantBits.n10_le x hx, QuantBits.s8_some x hx⟩
+
+/-- **The packed formats made of these quantisers, every RGBA `f32` pixel** (the `universal!`
+closures of src/encode/uncompressed.rs with their `u16` / `u32` shifts, which silently drop bits
+shifted past the type): B5G6R5, B5G5R5A1, B4G4R4A4, A4B4G4R4, R10G10B10A2 and R8G8B8A8_SNORM
+encode every pixel to exactly the field packing `pack` — no shift drops a bit, no field reaches
+into its neighbour — and the word fits 16 / 32 bits; for R8G8B8A8_SNORM no channel panics.
+`packed_formats_fit` for these formats without any hypothesis on the rounding. -/
+theorem packed_formats_fit_bits (r g b a : Nat) (hr : r < 2 ^ 32) (hg : g < 2 ^ 32)
+    (hb : b < 2 ^ 32) (ha : a < 2 ^ 32) :
+    (QuantBits.encode "B5G6R5_UNORM" r g b a =
+        some (pack [(QuantBits.n5 b, 5), (QuantBits.n6 g, 6), (QuantBits.n5 r, 5)]) ∧
+      pack [(QuantBits.n5 b, 5), (QuantBits.n6 g, 6), (QuantBits.n5 r, 5)] < 2 ^ 16) ∧
+    (QuantBits.encode "B5G5R5A1_UNORM" r g b a =
+        some (pack [(QuantBits.n5 b, 5), (QuantBits.n5 g, 5), (QuantBits.n5 r, 5), (QuantBits.n1 a, 1)]) ∧
+      pack [(QuantBits.n5 b, 5), (QuantBits.n5 g, 5), (QuantBits.n5 r, 5), (QuantBits.n1 a, 1)] < 2 ^ 16) ∧
+    (QuantBits.encode "B4G4R4A4_UNORM" r g b a =
+        some (pack [(QuantBits.n4 b, 4), (QuantBits.n4 g, 4), (QuantBits.n4 r, 4), (QuantBits.n4 a, 4)]) ∧
+      pack [(QuantBits.n4 b, 4), (QuantBits.n4 g, 4), (QuantBits.n4 r, 4), (QuantBits.n4 a, 4)] < 2 ^ 16 ∧
+      QuantBits.encode "A4B4G4R4_UNORM" r g b a =
+        some (pack [(QuantBits.n4 a, 4), (QuantBits.n4 b, 4), (QuantBits.n4 g, 4), (QuantBits.n4 r, 4)]) ∧
+      pack [(QuantBits.n4 a, 4), (QuantBits.n4 b, 4), (QuantBits.n4 g, 4), (QuantBits.n4 r, 4)] < 2 ^ 16) ∧
+    (QuantBits.encode "R10G10B10A2_UNORM" r g b a =
+        some (pack [(QuantBits.n10 r, 10), (QuantBits.n10 g, 10), (QuantBits.n10 b, 10), (QuantBits.n2 a, 2)]) ∧
+      pack [(QuantBits.n10 r, 10), (QuantBits.n10 g, 10), (QuantBits.n10 b, 10), (QuantBits.n2 a, 2)] < 2 ^ 32) ∧
+    (∃ r' g' b' a', QuantBits.s8 r = some r' ∧ QuantBits.s8 g = some g' ∧ QuantBits.s8 b = some b' ∧
+      QuantBits.s8 a = some a' ∧
+      QuantBits.encode "R8G8B8A8_SNORM" r g b a = some (pack [(r', 8), (g', 8), (b', 8), (a', 8)]) ∧
+      pack [(r', 8), (g', 8), (b', 8), (a', 8)] < 2 ^ 32) :=
+  ⟨QuantBits.encode_b5g6r5 r g b a hr hg hb, QuantBits.encode_b5g5r5a1 r g b a hr hg hb,
+   QuantBits.encode_b4g4r4a4 r g b a hr hg hb ha, QuantBits.encode_r10g10b10a2 r g b a hr hg hb ha,
+   QuantBits.encode_rgba8_snorm r g b a hr hg hb ha⟩
+
 /-- **Packing.** Fields that fit their widths pack into the sum of the widths, and the lowest
 field and the remaining fields are read back unchanged: no shift overflows into a neighbour. -/
 theorem packing_cannot_overflow (l : List (Nat × Nat)) (h : ∀ f ∈ l, f.1 < 2 ^ f.2) :
@@ -471,6 +522,16 @@ example : SharedExp.fields (fun _ => false) 0x3F800000 0x3F000000 0x3E800000 = s
 example : 1 ≤ 0x447FC000 ∧ 0x447FC000 ≤ SharedExp.c65408 ∧ 25 ≤ 31 ∧
     CF32.expField 0x447FC000 ≤ 25 + 111 ∧ 0x447FC000 < CF32.posInf ∧
     CF32.fmul 0x447FC000 (CF32.twoPowi (-1)) = 0x43FFC000 := by decide +kernel
+-- the bit-level UNORM quantisers: the constants are the `f32` literals; NaN (any sign) and +inf go to
+-- MAX, -inf and -0.0 to 0, 0.5 to round(15.5 + 0.5) = 16, a value one ulp below 1 to MAX; SNORM8 of NaN
+-- is +127; a pixel of (NaN, -inf, +inf, 0.5) in B5G5R5A1 is b=31, g=0, r=31, a=1
+example : CF32.ofNat 3 = QuantBits.k3 ∧ CF32.ofNat 15 = QuantBits.k15 ∧ CF32.ofNat 31 = QuantBits.k31 ∧
+    CF32.ofNat 63 = QuantBits.k63 ∧ CF32.ofNat 1023 = QuantBits.k1023 ∧ CF32.ofNat 254 = QuantBits.k254 ∧
+    QuantBits.n5 0x7FC00000 = 31 ∧ QuantBits.n5 0xFFC00001 = 31 ∧ QuantBits.n5 0x7F800000 = 31 ∧
+    QuantBits.n5 0xFF800000 = 0 ∧ QuantBits.n5 0x80000000 = 0 ∧ QuantBits.n5 0x3F000000 = 16 ∧
+    QuantBits.n10 0x3F7FFFFF = 1023 ∧ QuantBits.s8 0x7FC00000 = some 127 ∧ QuantBits.s8 0 = some 129 ∧
+    QuantBits.encode "B5G5R5A1_UNORM" 0x7FC00000 0xFF800000 0x7F800000 0x3F000000 = some 0xFC1F := by
+  decide +kernel
 -- the loop guard can cut the loop short, and `max_iter` cuts it when the guard never does
 example : refineIters (fun i => i < 2) 10 10 0 = 2 ∧ refineIters (fun _ => true) 4 100 0 = 4 := by
   decide
